@@ -1,3 +1,9 @@
 package main
 
+import "bufio"
+
 func vTempDir() string { return "/tmp/verif-model-dir" }
+
+// verifChunkReader returns a reader over the concatenation of the chunks (the
+// byte strings one Write call each handed to a sink).
+func verifChunkReader(chunks [][]byte) *bufio.Reader
